@@ -409,7 +409,7 @@ func init() {
 				take := func() {
 					log.Flush()
 					if a.GC {
-						settle(dir, 20*time.Millisecond, 2*time.Second)
+						settle(dir, 150*time.Millisecond, 5*time.Second)
 					}
 					fs, fe, fn, e := snapshot()
 					snaps = append(snaps, snap{After: nlogged, Files: fs, Fetched: fe, FetchedNow: fn, Err: e})
@@ -485,7 +485,7 @@ func init() {
 					}
 					log.Flush()
 				}
-				settle(where, 50*time.Millisecond, 3*time.Second)
+				settle(where, 300*time.Millisecond, 8*time.Second)
 				type fi struct {
 					Name string
 					Size int64
@@ -566,7 +566,7 @@ func init() {
 				atomic.StoreInt64(&log.LogFilesCombinedMaxSize, a.Bound)
 				gctx, cancel := context.WithCancel(context.Background())
 				log.StartGCDaemon(gctx)
-				left := settle(dir, 30*time.Millisecond, 3*time.Second)
+				left := settle(dir, 300*time.Millisecond, 8*time.Second)
 				cancel()
 				return map[string]interface{}{"names": names, "before": before, "left": left}, nil
 			})
